@@ -8,6 +8,8 @@ import (
 	"math"
 	"reflect"
 	"strings"
+	"sync"
+	"sync/atomic"
 
 	"github.com/CrowdStrike/csproto"
 	gogojson "github.com/gogo/protobuf/jsonpb"
@@ -169,6 +171,63 @@ func runC18(cfg *config, res *monitor.Result) {
 				tv := g.Random(t.md)
 				tv.Msg, tv.Class, tv.Field = dc, fmt.Sprintf("deep-chain-%d", depth), ""
 				cases = append(cases, tv)
+			}
+		}
+		// overlapping adapter calls with different options (adapters are values; nothing documents them as sharing state):
+		// four goroutines, four option tuples, one message - each output must be what the same call gives on its own
+		if len(cases) > 0 {
+			d := cases[len(cases)/2].Msg
+			fixWKT(d.ProtoReflect(), 0)
+			if jsonSafe(d.ProtoReflect(), 0) {
+				type tuple struct {
+					indent     string
+					nums, zero bool
+				}
+				tuples := []tuple{{"", false, false}, {"  ", true, false}, {"\t", false, true}, {" ", true, true}}
+				want := make([]any, len(tuples))
+				okAll := true
+				for i, tp := range tuples {
+					g0, err := build(t, d)
+					if err != nil {
+						okAll = false
+						break
+					}
+					out, err := csproto.JSONMarshaler(g0, csproto.JSONIndent(tp.indent), csproto.JSONUseEnumNumbers(tp.nums), csproto.JSONIncludeZeroValues(tp.zero)).MarshalJSON()
+					if err != nil || indentOK(out, tp.indent) != "" {
+						okAll = false
+						break
+					}
+					want[i], _ = jsonTree(out)
+				}
+				if okAll {
+					var wg sync.WaitGroup
+					var bad atomic.Int64
+					for i, tp := range tuples {
+						wg.Add(1)
+						go func(i int, tp tuple) {
+							defer wg.Done()
+							g1, err := build(t, d)
+							if err != nil {
+								return
+							}
+							for k := 0; k < 40; k++ {
+								out, err := csproto.JSONMarshaler(g1, csproto.JSONIndent(tp.indent), csproto.JSONUseEnumNumbers(tp.nums), csproto.JSONIncludeZeroValues(tp.zero)).MarshalJSON()
+								tree, _ := jsonTree(out)
+								if err != nil || !reflect.DeepEqual(tree, want[i]) || indentOK(out, tp.indent) != "" {
+									bad.Add(1)
+								}
+							}
+						}(i, tp)
+					}
+					wg.Wait()
+					evals += 160
+					classes["overlapping-calls/"+t.pkg.Flavour]++
+					if n := bad.Load(); n > 0 {
+						res.Violate(fmt.Sprintf("C18:%s:overlapping-calls-mix-options", t.pkg.Flavour),
+							fmt.Sprintf("%s (%s): %d of 160 JSONMarshaler calls made while other calls with other options were running did not honour their own options", t.md.FullName(), t.pkg.GoPkg, n),
+							map[string]any{"package": t.pkg.GoPkg, "message": string(t.md.FullName()), "value": bridge.Text(d)})
+					}
+				}
 			}
 		}
 		for ci, c := range cases {
